@@ -70,7 +70,11 @@ func FuncText(f *u.Func) string {
 		rs = append(rs, rr(r))
 	}
 	if f.Err {
-		rs = append(rs, "error")
+		if f.ErrAt > 0 && f.ErrAt-1 < len(rs) {
+			rs = append(rs[:f.ErrAt-1], append([]string{"error"}, rs[f.ErrAt-1:]...)...)
+		} else {
+			rs = append(rs, "error")
+		}
 	}
 	s := fmt.Sprintf("%s:(%s)->(%s)", f.ID, strings.Join(ps, ","), strings.Join(rs, ","))
 	if f.OptName != "" {
